@@ -201,7 +201,10 @@ def rule_ed_guard(ctx: RuleContext, p: Program, fns: list[FuncInfo], rid: str) -
                             (isinstance(o, ast.Name) and o.id in read_vars)
                             or (isinstance(o, ast.Subscript) and norm(o.value) in read_vars)
                             or (isinstance(o, ast.Call) and isinstance(o.func, ast.Attribute) and o.func.attr == 'get'
-                                and norm(o.func.value) in read_vars) for o in orig)
+                                and norm(o.func.value) in read_vars
+                                # a path that was never read must differ from *any* printed text: default None only
+                                and (len(o.args) == 1 or (len(o.args) == 2 and isinstance(o.args[1], ast.Constant) and o.args[1].value is None))
+                                and not o.keywords) for o in orig)
                         if has_new and has_orig:
                             ok = True
                         else:
